@@ -45,12 +45,14 @@ def Dev.setState (st : DeviceState) : Dev → Dev
   | .trash t => .trash { t with state := st }
 
 /-- one frame of a packet: its bytes (header + pixels) and, for the TIFF writers, the
-    length of the description string section -/
+    lengths of the description string section (first frame of a file / later frames) -/
 structure Frame where
   bytes : Bytes
-  desc : Nat := 0
+  descFirst : Nat := 0
+  descRest : Nat := 0
 
-def Frame.io (f : Frame) : FrameIo := { img := f.bytes.length - videoFrameBytes, desc := f.desc }
+def Frame.io (f : Frame) : FrameIo :=
+  { img := f.bytes.length - videoFrameBytes, descFirst := f.descFirst, descRest := f.descRest }
 
 /-- the packet `[beg, end)` handed to `storage_append` -/
 def packetBytes (fs : List Frame) : Bytes := (fs.map (·.bytes)).flatten
